@@ -207,6 +207,15 @@ pub enum FillSet {
     Lite,
     /// as `Lite`, but with the wide index code (long family: rows / columns of length >= 15)
     LiteWide,
+    /// the 4 wide index-coded sign patterns only (long family, structural group: values are just labels)
+    CodedWide,
+}
+
+impl FillSet {
+    /// Does the fill set belong to the long family (round 2)?
+    pub fn is_long(self) -> bool {
+        matches!(self, FillSet::LiteWide | FillSet::CodedWide)
+    }
 }
 
 pub fn pow3(n: usize) -> usize {
@@ -217,6 +226,7 @@ pub fn n_fills(r: usize, c: usize, fs: FillSet) -> usize {
     match fs {
         FillSet::Full { sigma_max } => 20 + if r * c <= sigma_max { pow3(r * c) } else { 0 },
         FillSet::Lite | FillSet::LiteWide => 6,
+        FillSet::CodedWide => 4,
     }
 }
 
@@ -226,6 +236,7 @@ fn offset_pattern(i: usize, j: usize) -> f64 {
 
 pub fn fill(idx: usize, r: usize, c: usize, fs: FillSet, seed: u64) -> M {
     match fs {
+        FillSet::CodedWide => coded_w(r, c, idx, seed),
         FillSet::Lite | FillSet::LiteWide => match idx {
             0..=3 if fs == FillSet::LiteWide => coded_w(r, c, idx, seed),
             0..=3 => coded(r, c, idx, seed),
@@ -257,6 +268,7 @@ pub fn fill(idx: usize, r: usize, c: usize, fs: FillSet, seed: u64) -> M {
 
 pub fn fill_name(idx: usize, fs: FillSet) -> String {
     match fs {
+        FillSet::CodedWide => format!("wide-index-coded/{}", SIGN_NAMES[idx]),
         FillSet::Lite | FillSet::LiteWide => match idx {
             0..=3 if fs == FillSet::LiteWide => format!("wide-index-coded/{}", SIGN_NAMES[idx]),
             0..=3 => format!("index-coded/{}", SIGN_NAMES[idx]),
